@@ -175,6 +175,122 @@ def _missing(rnames, sols, reached, spec, pair_ok):
     return out
 
 
+# ------------------------------------------------------------------ index-selected and nested-list references
+
+def mk_indexed():
+    @vsc.randobj
+    class Leaf4(object):
+        def __init__(self):
+            self.x = vsc.rand_bit_t(3)
+            self.y = vsc.rand_bit_t(3)
+
+        @vsc.constraint
+        def cxy(self):
+            self.x < self.y
+
+    @vsc.randobj
+    class Mid4(object):
+        def __init__(self, n):
+            self.inner = vsc.rand_list_t(Leaf4())
+            for _ in range(n):
+                self.inner.append(Leaf4())
+
+    @vsc.randobj
+    class TopSel(object):
+        """the index of a subscript is a non-random field the user changes between calls"""
+        def __init__(self):
+            self.sel = vsc.bit_t(2)
+            self.l = vsc.rand_list_t(Leaf4())
+            for _ in range(3):
+                self.l.append(Leaf4())
+
+        @vsc.constraint
+        def csel(self):
+            self.l[self.sel].x == 5
+            with vsc.foreach(self.l, idx=True) as i:
+                with vsc.if_then(i != self.sel):
+                    self.l[i].x < 4
+
+    @vsc.randobj
+    class TopNest(object):
+        """nested foreach over inner lists of different lengths"""
+        def __init__(self, sizes):
+            self.outer = vsc.rand_list_t(Mid4(1))
+            for n in sizes:
+                self.outer.append(Mid4(n))
+
+        @vsc.constraint
+        def cn(self):
+            with vsc.foreach(self.outer, idx=True) as i:
+                with vsc.foreach(self.outer[i].inner, idx=True) as j:
+                    self.outer[i].inner[j].x >= i + j + 2
+    return TopSel, TopNest
+
+
+def run_indexed(job):
+    kind = job[0]
+    cnt = {"executions": 0, "transitions": 0, "states": 0, "nontrivial": 1, "equality_checked": 0, "pairs_checked": 0}
+    viol = []
+    TopSel, TopNest = mk_indexed()
+
+    def bad(sub, what, obs, exp, choices):
+        if len(viol) < 4:
+            viol.append({"subcheck": sub, "case": {"indexed": list(job), "choices": choices}, "observed": obs, "expected": exp, "what": what})
+    if kind == "sel":
+        seq = job[1]
+
+        def run(s):
+            o = TopSel()
+            o.set_randstate(SRandState(s))
+            outs = []
+            for sv in seq:
+                o.sel = sv
+                out = common.outcome(o.randomize)
+                outs.append((out[0], sv, [(int(e.x), int(e.y)) for e in o.l]))
+            return outs
+        for x in explore(run, bound=1, cap=4000):
+            cnt["executions"] += len(seq)
+            cnt["transitions"] += len(x.trace) + len(seq)
+            for k, (res_, sv, vals) in enumerate(x.obs):
+                if res_ != "ok":
+                    bad("indexed_call_failed", "selector sequence %r: call %d (sel=%d) ended with %r" % (seq, k, sv, res_), res_, "returns", x.choices)
+                    continue
+                ok = all((vx == 5) if i == sv else (vx < 4) for i, (vx, vy) in enumerate(vals)) and all(vx < vy for vx, vy in vals)
+                if not ok:
+                    bad("index_denotes_wrong_element", "selector sequence %r: after call %d with sel=%d the list is %r; l[sel].x must be 5, "
+                        "the others below 4" % (seq, k, sv, vals), vals, "l[%d].x == 5" % sv, x.choices)
+    else:
+        sizes = job[1]
+
+        def run(s):
+            o = TopNest(sizes)
+            o.set_randstate(SRandState(s))
+            out = common.outcome(o.randomize)
+            return out[0], [[(int(e.x), int(e.y)) for e in m.inner] for m in o.outer]
+        for x in explore(run, bound=1, cap=4000):
+            cnt["executions"] += 1
+            cnt["transitions"] += len(x.trace) + 1
+            res_, vals = x.obs
+            if res_ != "ok":
+                bad("indexed_call_failed", "inner sizes %r: call ended with %r" % (sizes, res_), res_, "returns", x.choices)
+                continue
+            for i, inner in enumerate(vals):
+                for j, (vx, vy) in enumerate(inner):
+                    if not (vx >= i + j + 2 and vx < vy):
+                        bad("index_denotes_wrong_element", "inner sizes %r: outer[%d].inner[%d] = (x=%d,y=%d) violates x >= %d, x < y "
+                            "(values %r)" % (sizes, i, j, vx, vy, i + j + 2, vals), vals, "foreach body holds for every element", x.choices)
+    cnt["states"] = 1
+    return {"cnt": cnt, "viol": viol}
+
+
+def indexed_jobs(tier):
+    import itertools as it
+    jobs = [("sel", list(s)) for s in it.product(range(3), repeat=2)] + [("sel", [0, 2, 1]), ("sel", [2, 2, 0]), ("sel", [1, 0, 1])]
+    for sizes in ([1, 3, 2], [2, 1], [1, 2], [3, 1, 2], [2, 2]):
+        jobs.append(("nest", sizes))
+    return jobs
+
+
 def _pairs(spec):
     if spec["kind"] == "leaf":
         pr = [("s1.x", "s2.x"), ("s1.y", "s2.y")]
@@ -209,6 +325,18 @@ def run(res, only=None):
         for v in r["viol"]:
             v["finding"] = classify(v)
             res.violation(v)
+    ij = indexed_jobs(res.tier)
+    for j, r in common.good(ij, common.pmap(run_indexed, ij, chunk=1), res):
+        cnt = r["cnt"]
+        res.add("traces_validated_against_impl", cnt["executions"])
+        res.add("transitions", cnt["transitions"])
+        res.add("states", cnt["states"])
+        res.add("evaluations", cnt["executions"])
+        nontriv += 1
+        res.subcount("trees", "indexed_reference_programs")
+        for v in r["viol"]:
+            v["finding"] = classify(v)
+            res.violation(v)
     res.cov["distinct_nontrivial"] = nontriv
     res.cov["rule"] = ("one case = one object tree with its cross-level constraint set (all presets of its non-random parts); "
                        "non-trivial if the reference solution set is neither empty nor everything")
@@ -219,6 +347,10 @@ def run(res, only=None):
 
 def replay(rec):
     c = rec["case"]
+    if "indexed" in c:
+        r = run_indexed(tuple(c["indexed"]))
+        bad = [v for v in r["viol"] if v["subcheck"] == rec["subcheck"]]
+        return (not bad), (bad[0]["what"] if bad else "holds")
     spec = dict(c["spec"])
     spec["cons"] = tuple(spec.get("cons", ()))
     r = run_case({"spec": spec})
